@@ -1205,4 +1205,137 @@ theorem stitch_decreasing_both (dfs : List TS) (lb ub : List Int) (oc : Option (
 
 theorem tod_range (t : Int) : 0 ≤ tod t ∧ tod t < DAY := ⟨tod_nonneg t, tod_lt t⟩
 
+/-! ### the NaN round trip, exactly -/
+
+/-- **stitch_nona**: stitching the series with their NaN rows dropped gives the stitched frame minus the rows that are NaN
+    in every column - same width, same order; every spelling of the bound lists, every `n`, parsable brackets -/
+theorem stitch_nona (dfs : List TS) (hs : ∀ s ∈ dfs, s.Sorted) (lb ub : Option (List Int)) (oc : Option (List Char))
+    (n : Nat) (l u : Bool) (hb : brackets oc = .ok (l, u)) :
+    stitch (dfs.map nona) lb ub oc n = (stitch dfs lb ub oc n).map (Option.map Frame.dropNaRows) :=
+  stitch_nona_eq dfs hs lb ub oc n l u hb
+
+/-- **unslice_restitch_exact** - the round trip for ANY values: `df_unslice` returns one series per bound, in bound order,
+    and stitching those again reproduces the frame up to its all-NaN rows: same width, the rows that hold a value in
+    some column, in the same order (`Frame.dropNaRows F = ⟨F.width, F.rows.filter live⟩`). -/
+theorem unslice_restitch_exact (dfs : List TS) (ub : List Int) (h : Stitchable dfs ub) (hstrict : ub.Pairwise (· < ·))
+    (hs : ∀ s ∈ dfs, s.Sorted) (n : Nat) :
+    ∃ F U, stitch dfs Option.none (some ub) (some ['(', ']']) n = .ok (some F) ∧ unslice F ub = .ok U ∧
+      U.map (·.1) = ub ∧
+      stitch (U.map (·.2)) Option.none (some ub) (some ['(', ']']) n = .ok (some F.dropNaRows) := by
+  obtain ⟨F, U, h1, h2, h3, h4⟩ := unslice_restitch_nan dfs ub h hstrict hs n
+  refine ⟨F, U, h1, h2, h3, ?_⟩
+  rw [h4, stitch_nona dfs hs _ _ _ n false true rfl, h1]
+  rfl
+
+/-- hence the round trip reproduces the frame EXACTLY when no row of it is NaN in every column (C13-N1 is the other case) -/
+theorem unslice_restitch_iff (dfs : List TS) (ub : List Int) (h : Stitchable dfs ub) (hstrict : ub.Pairwise (· < ·))
+    (hs : ∀ s ∈ dfs, s.Sorted) (n : Nat) :
+    ∃ F U, stitch dfs Option.none (some ub) (some ['(', ']']) n = .ok (some F) ∧ unslice F ub = .ok U ∧
+      (stitch (U.map (·.2)) Option.none (some ub) (some ['(', ']']) n = .ok (some F) ↔ ∀ r ∈ F.rows, live r = true) := by
+  obtain ⟨F, U, h1, h2, _, h4⟩ := unslice_restitch_exact dfs ub h hstrict hs n
+  refine ⟨F, U, h1, h2, ?_⟩
+  rw [h4]
+  cases F with
+  | mk w rows =>
+    simp only [Frame.dropNaRows, Except.ok.injEq, Option.some.injEq, Frame.mk.injEq, true_and, List.filter_eq_self]
+
+/-- a row survives iff some column holds a value -/
+theorem live_iff (r : Int × List (Option Int)) : live r = true ↔ ∃ v ∈ r.2, v ≠ Option.none := by
+  simp only [live, List.any_eq_true, Option.isSome_iff_ne_none]
+
+example : (⟨1, [(0, [some 1]), (1, [none]), (2, [some 3])]⟩ : Frame).dropNaRows = ⟨1, [(0, [some 1]), (2, [some 3])]⟩ := rfl
+
+/-! ### `zipper`'s broadcasting of length-1 bound lists -/
+
+/-- a lower-bound list of length 1 beside `m ≥ 2` upper bounds is the lower bound of every piece: the same frame as with
+    the bound written out `m` times -/
+theorem stitch_broadcast_lb (dfs : List TS) (a : Int) (ub : List Int) (hlen : dfs.length = ub.length) (htwo : 2 ≤ ub.length)
+    (oc : Option (List Char)) (n : Nat) :
+    stitch dfs (some [a]) (some ub) oc n = stitch dfs (some (List.replicate ub.length a)) (some ub) oc n := by
+  have hr := nonDecreasing_replicate ub.length a
+  have h1 : nonDecreasing [a] = true := rfl
+  unfold stitch
+  by_cases hu : nonDecreasing ub = true
+  · rw [normalise_both_lists dfs [a] ub h1 hu, normalise_both_lists dfs _ ub hr hu]
+    simp only [bind, Except.bind]
+    have hfl := framesOf_length dfs n
+    rw [zipper3_bcast _ _ _ ub.length (by omega) (Or.inl (by omega)) (Or.inr rfl) (Or.inl (by simp)) (Or.inl (by omega)),
+      zipper3_eq _ _ _ (by simp; omega) (by simp; omega)]
+    rw [bcast_self _ (framesOf dfs n) (by omega), bcast_self _ (ub.map some) (by simp; omega)]
+    simp only [List.map_cons, List.map_nil]
+    rw [bcast_one _ (by omega), List.map_replicate]
+  · rw [normalise_rejects_mixed dfs [a] ub (by simp [h1, hu]), normalise_rejects_mixed dfs _ ub (by simp [hr, hu])]
+
+/-- the same for an upper-bound list of length 1 beside `m ≥ 2` lower bounds -/
+theorem stitch_broadcast_ub (dfs : List TS) (lb : List Int) (b : Int) (hlen : dfs.length = lb.length) (htwo : 2 ≤ lb.length)
+    (oc : Option (List Char)) (n : Nat) :
+    stitch dfs (some lb) (some [b]) oc n = stitch dfs (some lb) (some (List.replicate lb.length b)) oc n := by
+  have hr := nonDecreasing_replicate lb.length b
+  have h1 : nonDecreasing [b] = true := rfl
+  unfold stitch
+  by_cases hu : nonDecreasing lb = true
+  · rw [normalise_both_lists dfs lb [b] hu h1, normalise_both_lists dfs lb _ hu hr]
+    simp only [bind, Except.bind]
+    have hfl := framesOf_length dfs n
+    rw [zipper3_bcast _ _ _ lb.length (by omega) (Or.inl (by omega)) (Or.inl (by simp)) (Or.inr rfl) (Or.inl (by omega)),
+      zipper3_eq _ _ _ (by simp; omega) (by simp; omega)]
+    rw [bcast_self _ (framesOf dfs n) (by omega), bcast_self _ (lb.map some) (by simp; omega)]
+    simp only [List.map_cons, List.map_nil]
+    rw [bcast_one _ (by omega), List.map_replicate]
+  · rw [normalise_rejects_mixed dfs lb [b] (by simp [h1, hu]), normalise_rejects_mixed dfs lb _ (by simp [hr, hu])]
+
+/-- so with one lower bound `a` for all pieces (default `n = 1`): a row `(t, v)` of series `i` appears exactly when
+    `a </≤ t` and `t </≤ ub[i]` -/
+theorem stitch_source_broadcast_lb (dfs : List TS) (a : Int) (ub : List Int) (hlen : dfs.length = ub.length) (htwo : 2 ≤ ub.length)
+    (hinc : nonDecreasing ub = true) (oc : Option (List Char)) (n : Nat) (hn : n ≤ 1) (l u : Bool) (hb : brackets oc = .ok (l, u))
+    (F : Frame) (hF : stitch dfs (some [a]) (some ub) oc n = .ok (some F)) (t : Int) (vs : List (Option Int)) :
+    (t, vs) ∈ F.rows ↔ ∃ i, ∃ hd : i < dfs.length, ∃ hu : i < ub.length, ∃ v,
+      (t, v) ∈ dfs[i] ∧ lbOk l (.date a) t = true ∧ ubOk u (.date ub[i]) t = true ∧ vs = padRow F.width [v] := by
+  rw [stitch_broadcast_lb dfs a ub hlen htwo] at hF
+  rw [stitch_source_general_series dfs _ _ oc n hn l u hb dfs _ _
+    (normalise_both_lists dfs _ ub (nonDecreasing_replicate _ a) hinc) (by simp [hlen]) (by simp [hlen]) (by omega) F hF t vs]
+  constructor
+  · rintro ⟨i, hd, hl, hu, v, h1, h2, h3, h4⟩
+    simp only [List.length_map] at hu
+    exact ⟨i, hd, hu, v, h1, by simpa [optDate] using h2, by simpa [optDate] using h3, h4⟩
+  · rintro ⟨i, hd, hu, v, h1, h2, h3, h4⟩
+    exact ⟨i, hd, by simp; omega, by simp; omega, v, h1, by simpa [optDate] using h2, by simpa [optDate] using h3, h4⟩
+
+/-- a list holding ONE series beside `m ≥ 2` upper bounds: the series is cut at every bound (and the pieces concatenated) -
+    the same frame as with the series written out `m` times (default `n = 1`) -/
+theorem stitch_broadcast_series (s : TS) (ub : List Int) (htwo : 2 ≤ ub.length) (oc : Option (List Char)) (n : Nat) (hn : n ≤ 1) :
+    stitch [s] Option.none (some ub) oc n = stitch (List.replicate ub.length s) Option.none (some ub) oc n := by
+  have hn' : ¬ n > 1 := by omega
+  have key : ∀ v : List Int, v.length = ub.length →
+      zipper3 (framesOf [s] n) (Option.none :: v.dropLast.map some) (v.map some) =
+        zipper3 (framesOf (List.replicate ub.length s) n) (Option.none :: v.dropLast.map some) (v.map some) := by
+    intro v hv
+    have hl1 : (Option.none :: v.dropLast.map some).length = ub.length := by simp; omega
+    simp only [framesOf, hn', if_false, List.map_cons, List.map_nil, List.map_replicate]
+    rw [zipper3_bcast _ _ _ ub.length (by omega) (Or.inr rfl) (Or.inl hl1) (Or.inl (by simp [hv])) (Or.inr (Or.inl hl1)),
+      zipper3_eq _ _ _ (by simp; omega) (by simp [hv])]
+    rw [bcast_one _ (by omega), bcast_self _ _ (by rw [hl1]; omega), bcast_self _ (v.map some) (by simp; omega)]
+  by_cases hu : nonDecreasing ub = true
+  · simp only [stitch, normalise, hu, if_true, bind, Except.bind, pure, Except.pure]
+    rw [key ub rfl]
+  · simp only [stitch, normalise, hu, Bool.false_eq_true, if_false, bind, Except.bind, pure, Except.pure, List.reverse_cons, List.reverse_nil,
+      List.nil_append, List.reverse_replicate]
+    rw [key ub.reverse (by simp)]
+
+/-- lists of two different lengths, neither of them 1, are rejected (`lens`: `ValueError`) - never zipped short -/
+theorem stitch_length_mismatch (dfs : List TS) (ub : List Int) (oc : Option (List Char)) (n : Nat)
+    (h1 : dfs.length ≠ 1) (h2 : ub.length ≠ 1) (h3 : dfs.length ≠ ub.length) :
+    stitch dfs Option.none (some ub) oc n = .error .value := by
+  have key : ∀ (d : List TS) (v : List Int), d.length = dfs.length → v.length = ub.length →
+      zipper3 (framesOf d n) (Option.none :: v.dropLast.map some) (v.map some) = .error .value := by
+    intro d v hd hv
+    unfold zipper3
+    rw [lens3_mismatch _ _ _ (Or.inr (Or.inl ⟨by rw [framesOf_length]; omega, by simp; omega, by rw [framesOf_length]; simp; omega⟩))]
+    rfl
+  by_cases hu : nonDecreasing ub = true
+  · simp only [stitch, normalise, hu, if_true, bind, Except.bind, pure, Except.pure]
+    rw [key dfs ub rfl rfl]
+  · simp only [stitch, normalise, hu, Bool.false_eq_true, if_false, bind, Except.bind, pure, Except.pure]
+    rw [key dfs.reverse ub.reverse (by simp) (by simp)]
+
 end Pyg.Props.C13
